@@ -296,6 +296,44 @@ func gen(r *sim.Rng, tier string) *sim.Case {
 			c.Sched.FreezeAt = r.Range(c.Sched.SpinBurn, c.Sched.SpinBurn*5)
 		}
 	}
+	if r.Pct(4) {
+		// a lagging popper: one Pop is descheduled at one of its own steps for a long while, two
+		// busy poppers and a pusher carry on (the pusher itself is descheduled right after one of
+		// its writes), and the state is probed while all of them are in flight: whatever a Pop
+		// remembers from before the pause (a head, a tail, a next pointer) is stale when it resumes
+		c.Params["twin"] = 0
+		c.Params["init"] = r.Range(3, 9)
+		busy := func(n int) []sim.Op {
+			var p []sim.Op
+			for i := 0; i < n; i++ {
+				p = append(p, sim.Op{Op: "Pop"})
+			}
+			return p
+		}
+		var push []sim.Op
+		for i := 0; i < r.Range(2, 5); i++ {
+			push = append(push, sim.Op{Op: "Push", V: 4<<8 | (i + 1)})
+		}
+		c.Programs = [][]sim.Op{{{Op: "Pop"}, {Op: "Len"}}, busy(r.Range(3, 6)), busy(r.Range(2, 5)), push, {{Op: "Len"}, {Op: "Drain"}}}
+		probe = 4
+		total := 0
+		for _, p := range c.Programs[:4] {
+			total += len(p)
+		}
+		c.Sched = enga.GenSched(r, 4, total, probe, true)
+		c.Sched.SpinBurn, c.Sched.ClockJumpPct, c.Sched.MaxSteps = 0, 0, 20000
+		aw := r.Range(1, 3*len(push))
+		if r.Pct(60) {
+			aw = 1 + 3*r.N(len(push)) // right after the first write of one of its pushes
+		}
+		c.Sched.Stalls = []sim.Stall{
+			{T: 0, AfterS: r.Range(3, 12), For: r.Range(40, 150)},
+			{T: 3, At: 0, For: r.Range(8, 40)}, // the pusher starts late ...
+			{T: 3, At: 0, AfterW: aw, For: r.Range(40, 160)}, // ... and is descheduled in the middle of a push
+		}
+		c.Sched.FreezeAt = r.Range(30, 160)
+		c.Params["lagging"] = 1
+	}
 	c.Params["elem"] = r.Pick(6, 2, 3, 2, 1) // element type: int, string, three-word struct, pointer, interface
 	if r.Pct(2) {
 		// a contended deadline: one thread makes a single timed PopWait on a list that is not
@@ -424,6 +462,9 @@ func check(run *enga.Run) *sim.Violation {
 
 	if c.Sched != nil && c.Sched.Policy == "lockstep" {
 		run.Out.Probes["lockstep_schedule"]++
+	}
+	if c.P("lagging") == 1 {
+		run.Out.Probes["pop_descheduled_at_one_of_its_own_steps_next_to_busy_poppers_and_a_stalled_pusher"]++
 	}
 	if c.P("contended") == 1 && len(recs) > 0 && len(recs[0]) > 0 && recs[0][0].Done {
 		run.Out.Probes["timed_wait_next_to_a_busy_popper_in_lockstep"]++
